@@ -33,7 +33,7 @@ t0=$(date +%s)
 pids=""
 for i in $(seq 1 $W); do
   c="work/fuzz/corpus.$prop.$$.$i"; mkdir -p "$c"; cp harness/fuzz/seeds/"$target"/* "$c"/ 2>/dev/null
-  DV_FUZZ_PROP="$prop" "$bin" "$c" -runs="$per" -seed="$(( seed * 100 + i ))" -len_control=0 -max_len=512 -artifact_prefix="work/fuzz/art.$prop.$$.$i." > "$flog.$i" 2>&1 &
+  DV_FUZZ_PROP="$prop" "$bin" "$c" -runs="$per" -seed="$(( seed * 100 + i ))" -len_control=0 -max_len=512 -use_value_profile=1 -artifact_prefix="work/fuzz/art.$prop.$$.$i." > "$flog.$i" 2>&1 &
   pids="$pids $!"
 done
 rc=0
